@@ -278,7 +278,12 @@ impl<'a> JsonValueTrait for LazyValue<'a> {
     }
 
     fn as_raw_number(&self) -> Option<RawNumber> {
-        from_str(self.as_raw_str()).ok()
+        // `RawNumber` also deserializes from a quoted number, but a JSON string is not a number
+        if self.is_number() {
+            from_str(self.as_raw_str()).ok()
+        } else {
+            None
+        }
     }
 
     fn as_str(&self) -> Option<&str> {
